@@ -9,4 +9,5 @@ os.makedirs('/verif/checklib/prompts/out',exist_ok=True)
 for k,ex in extras.items():
     ids=ex.get('ids',[k])
     pt='\n\n'.join(ptext(i) for i in ids)
-    open(f'/verif/checklib/prompts/out/{k}.txt','w').write(tmpl.replace('{ids}',' and '.join(ids)).replace('{first}',k).replace('{lower}',k.lower()).replace('{ptext}',pt).replace('{extra}',ex['notes']))
+    first=ids[0]
+    open(f'/verif/checklib/prompts/out/{k}.txt','w').write(tmpl.replace('{ids}',' and '.join(ids)).replace('{first}',first).replace('{lower}',first.lower()).replace('{ptext}',pt).replace('{extra}',ex['notes']))
